@@ -8,7 +8,7 @@
 const char *CHK_RULE = "one case = one history on exactly-sized heap blocks (sweep: command capacity 6..40 x every byte value x argument length capacity-2..capacity+2 and "
                        "3*capacity; tables of n = 1..160 commands on the minimal legal capacity max(6, ceil(n/4)); random: generated tables incl. unsupported integer widths, "
                        "buffer sizes down to the minimum, unsolicited buffer sizes 0..40, odd buf_size, all handler return codes incl. out-of-range values and HOLD from event "
-                       "handlers, events at random points, back-pressure); non-trivial = a case that wrote the last legal byte of some buffer or variable; distinct by (capacity, "
+                       "handlers, events at random points, back-pressure, disable flags flipped between service calls, empty command names); non-trivial = a case that wrote the last legal byte of some buffer or variable; distinct by (capacity, "
                        "table size, input hash)";
 static char mode[100];
 void chk_describe(FILE *f) { fprintf(f, "%s\n", mode); eng_describe(f); }
@@ -81,7 +81,7 @@ void chk_run_case(uint64_t seed, long c, bool is_sweep)
         eng_default_profile();
         if (is_sweep) { if (c < N_SWEEP_A) sweep_bytes(c); else sweep_mincap(c - N_SWEEP_A); return; }
         snprintf(mode, sizeof mode, "random history (unspecified cells included)");
-        EP.unspecified_cells = true; EP.p_weird = 25; EP.p_long_line = 20; EP.p_event_step = rn(150); EP.p_cut = 20; EP.p_lookup = 40;
+        EP.unspecified_cells = true; EP.p_weird = 25; EP.p_long_line = 20; EP.p_event_step = rn(150); EP.p_cut = 20; EP.p_lookup = 40; EP.p_toggle = 30; EP.p_empty_name = 4;
         if (chance(20)) EP.max_cmds = 64;
         eng_gen_table();
         paint();
